@@ -59,6 +59,12 @@ def minonce(repo, res, rule="MINONCE"):
 def run(repo, res, tier):
     core_skips(repo, res)
     minonce(repo, res)
+    structure_rules(repo, res)
+
+
+def structure_rules(repo, res):
+    """NOIDRET / CHAIN / REP / DEAD / GROUPS / MPT on dfa::do_minimize and its callers (shared with C09: the automaton that is
+    interned is the minimised, trimmed, canonically renumbered one)"""
     fq = "dfa::do_minimize"
     fn = repo.fn(fq)
     if fn is None:
